@@ -15,6 +15,7 @@ import PyIpmi.Lemmas.ApiSensor
 import PyIpmi.Lemmas.ApiPicmg
 import PyIpmi.Lemmas.ApiPicmgLed
 import PyIpmi.Lemmas.ApiHpm
+import PyIpmi.Lemmas.ApiDcmi
 namespace PyIpmi.Lemmas.Api
 open PyIpmi PyIpmi.Codec PyIpmi.Spec.Bmc PyIpmi.Model.Api PyIpmi.Gen.Tables
 
@@ -208,6 +209,12 @@ theorem runModel_refines (c : Call) (s : BmcState) (hc : c.InRange) (hw : s.Wf) 
     simpa [runModel, opOf, opOfV, run, present, Result.toOutcome] using query_rollback_status_refines s
   | getComponentDescription id =>
     simpa [runModel, opOf, opOfV, run] using get_component_description_refines id s hc (descr_wf id s hw)
+  | getDcmiCapabilities sel =>
+    simpa [runModel, opOf, opOfV, run, present, Result.toOutcome] using
+      get_dcmi_capabilities_refines sel s hc hw.dcmiMajor hw.dcmiMinor
+  | getPowerReading mode attrs =>
+    simpa [runModel, opOf, opOfV, run, present, Result.toOutcome] using
+      get_power_reading_refines mode attrs s hc.1 hc.2 (powerReading_wf mode attrs s hw)
 
 /-! ### reads leave the BMC untouched -/
 
@@ -222,7 +229,7 @@ theorem run_read (c : Call) (s : BmcState) (h : c.isRead = true) : (run c s).1 =
 
 theorem wf_init : ({} : BmcState).Wf := by
   refine ⟨⟨?_, ?_, ?_, ?_, ?_, ?_, ?_, ?_, ?_⟩, ?_, ⟨?_, ?_, ?_, ?_, ?_⟩, ⟨?_, ?_⟩, ?_, ?_, ?_, ?_, ?_, ?_, ?_, ?_, ?_, ?_, ?_, ?_, ?_, ?_,
-    ?_, ?_, ?_, ?_, ?_, ?_, ?_⟩ <;> first | decide | exact Map.All.empty _ | (intro a h; cases h)
+    ?_, ?_, ?_, ?_, ?_, ?_, ?_, ?_, ?_, ?_, ?_⟩ <;> first | decide | exact Map.All.empty _ | (intro a h; cases h)
 
 theorem wf_withUser (uid : Nat) (s s' : BmcState) (r : Result) (hw : s.Wf) (hw' : s'.Wf) : (withUser uid s (s', r)).1.Wf := by
   unfold withUser; split <;> assumption
